@@ -603,6 +603,28 @@ HasTarget(cls, t) == cls \in TargetCls \/ t \in OutTmplNames
 AllOutLays == {"C", "F", "S", "R", "O"}
 AllInLays == {"C", "F", "S", "R", "B"}
 
+\* ---- input rank above the natural rank -------------------------------------------------------------------
+\* rk = 1: every array operand of rank >= 1 a template creates gets one more leading axis (a stack of two independent
+\* data sets).  Functions with default axes (fft2 family: last two; linalg: last two; cross/trapezoid/diff/gradient/
+\* flip/roll/rot90/tensordot defaults; reductions with axis given) must then do what NumPy does on the stripped stack.
+\* Target templates are not lifted (the out= shape of a lifted call is not stated by the template).
+Ranks == {0, 1}
+
+\* ---- argument aliasing x special values --------------------------------------------------------------------
+\* classes whose templates take two or more array operands: a later operand of the same rank and dtype may BE the
+\* first one ("S": the same object in two slots) or a view of it ("V"); crossed with data holding NaN / +-inf / -0.0
+\* (and the empty and 0-d shapes of the instance).  x == x is not true for NaN: identity or shared memory must not
+\* change the numbers.
+MultiOpCls == {"concat", "stack", "vhstack", "dcstack", "block", "append", "bcast_arrays", "meshgrid", "lexsort",
+   "dot", "prod2", "prod2m", "outer", "conv", "tensordot", "cross", "cross2", "multi_dot", "einsum", "einsum_path",
+   "close", "aeq", "aeq2", "set2", "set_au", "intersect", "isin", "linspace", "geomspace",
+   "copyto", "putmask", "place", "put", "fill_diagonal", "where", "choose", "select", "clip", "insert", "take_along",
+   "searchsorted", "digitize", "interp", "trapezoid", "gradient", "hist", "hist2d", "histdd", "cov", "cov2",
+   "solve", "lstsq", "tensorsolve", "types", "share_self", "diff", "ediff1d", "full_like", "average", "bincount",
+   "nd.dot", "nd.clip", "nd.searchsorted", "nd.choose", "nd.put", "nd.setitem"}
+Aliases == {"S", "V"}
+SpecialDC == {"nan", "inf", "nz"}
+
 \* ---- keyword completeness -----------------------------------------------------------------------------
 \* keyword -> non-default value classes (the meaning of mode= / order= is function-specific: harness/c06_templates.py);
 \* a keyword of NumPy's signature (inspect.signature, extracted from the installed NumPy) that is not in this table is
